@@ -172,6 +172,8 @@ prop("C06", [
     dict(engine="verus", unit="cache"),
     dict(engine="verus", unit="dnsttl"),
     dict(engine="kani", sets=["dns_ttl"]),
+    # the same clauses on the real code, body-independent (also judges a rewritten insert_cache_entry / get_entry)
+    dict(engine="sql", module="cache", domain="every history of 1..=3 insertions under one key (6 reply shapes with TTLs out of {1, 5, 600}) x 8 probe offsets around the TTL boundaries (1050 + 479 evaluations)"),
 ], explanation="cache map invariant (lifetime <= smallest TTL), hit window, exact key, exact TTL ageing",
     assumptions=["tokio::time::Instant/Duration modelled with a nanosecond view; Instant - Instant saturates at zero (std semantics)",
                  "RwLock<Cache> seen by one task at a time (lock invariant = map invariant); no interleaving modelled",
@@ -225,6 +227,9 @@ prop("C11", [
     # top-level defaults: the built-in base policy (R9 slices of build_default_config) and its application before the configured policies
     dict(engine="verus", unit="dhcpdefaults"),
     dict(engine="verus", unit="dhcphandlers", fns=["handle_discover", "handle_request"]),
+    # the two gate clauses on the real apply_policies, body-independent (also judges a rewritten apply_policy); covers the
+    # parameter-request-list extraction that the Verus unit replaces by a stub
+    dict(engine="sql", module="policy", domain="one matching policy carrying one option out of 10 codes (incl. 5 pairs 128 apart) x every parameter request list of 0..=2 of those codes (1010 cases); netmask/broadcast defaults (101 cases)"),
 ], explanation="policy selection and override: the response state after apply_policies equals the recursive model taken from the property statement (first applicable sibling only, condition-less policy applies iff a sub-policy does, own options then children then subnet defaults, null = do-not-send, only options in the parameter request list); to_options sends exactly the entries carrying a value",
     assumptions=["parameter-request-list extraction (iterator chain .unwrap_or_default().iter().copied().map(DhcpOption::from).collect()) replaced by a stub with the obvious contract",
                  "generic get_option::<Vec<u8>> glue assumed (parse_into proved in unit dhcpgetters)",
